@@ -87,9 +87,9 @@ def ratOfBits (b : Nat) : Option Rat :=
   if e == 2047 then none
   else
     let mag : Rat :=
-      if e == 0 then mkRat m (2 ^ 1074)
+      if e == 0 then mkRat (Int.ofNat m) (2 ^ 1074)
       else if e ≥ 1075 then (((2 ^ 52 + m) * 2 ^ (e - 1075) : Nat) : Rat)
-      else mkRat (2 ^ 52 + m) (2 ^ (1075 - e))
+      else mkRat (Int.ofNat (2 ^ 52 + m)) (2 ^ (1075 - e))
     some (if sign == 1 then -mag else mag)
 
 /-! ### `geom.inside_angle_range` -/
@@ -146,6 +146,14 @@ def zoneMatch {α : Type} [Scalar α] (fuel : Nat) (z : Zone α) (s : Spk α) : 
     some (lt (sub s.el eps) maxEl && lt minEl (add s.el eps) &&
           (lt (sub (ofNat 90) eps) (abs s.el) || inside))
 
+/-- `mapM` in `Option`, written out (a list comprehension whose element may fail). -/
+def mapOpt {β γ : Type} (f : β → Option γ) : List β → Option (List γ)
+  | [] => some []
+  | x :: xs =>
+    match f x, mapOpt f xs with
+    | some y, some ys => some (y :: ys)
+    | _, _ => none
+
 def orMask : List Bool → List Bool → List Bool
   | a :: as, b :: bs => (a || b) :: orMask as bs
   | _, _ => []
@@ -155,7 +163,7 @@ def getExcluded {α : Type} [Scalar α] (fuel : Nat) (spks : List (Spk α)) : Li
   | [] => some (spks.map fun _ => false)
   | z :: zs =>
     -- `excluded |= ...` in list order; `or` is commutative so the fold direction is immaterial
-    (spks.mapM (zoneMatch fuel z)).bind fun m =>
+    (mapOpt (zoneMatch fuel z) spks).bind fun m =>
     (getExcluded fuel spks zs).bind fun rest => some (orMask m rest)
 
 /-! ### `ZoneExclusionDownmix.downmix_for_excluded` -/
@@ -185,7 +193,7 @@ def downmixForExcluded {α : Type} [Scalar α] (n : Nat) (groups : List (List (L
     (mask : List Bool) : Option (List (List α)) :=
   if mask.length != n then none
   else if mask.all id || mask.all (fun b => !b) then some (eye n)
-  else groups.mapM (downmixRow n mask)
+  else mapOpt (downmixRow n mask) groups
 
 /-! ### `ZoneExclusionHandler.handle` : `sqrt(dot(gains**2, downmix))` -/
 
